@@ -36,12 +36,23 @@ Section TcpMetrics.
     end.
 
   Definition conn_key (evs : list ev) : string := match evs with EAuth id :: _ => f id | _ => EmptyString end.
-  Fixpoint twire (k : string) (e : env) (st : astate) (cis : list conn_in) : Z :=
+  (* the wire of one connection, per direction: the bytes its client sent; the payload bytes delivered
+     to the target; the bytes of the target that were relayed towards the client (the ciphertext
+     bytes written to the client are not modelled: that direction counts 0) *)
+  Definition to_target (evs : list ev) : Z :=
+    fold_right (fun x acc => match x with EToTarget bs => zlen bs + acc | _ => acc end) 0 evs.
+  Definition to_client (evs : list ev) : Z :=
+    fold_right (fun x acc => match x with EToClient bs => zlen bs + acc | _ => acc end) 0 evs.
+  Definition conn_wire (fc first : bool) (ci : conn_in) (evs : list ev) : Z :=
+    match fc, first with
+    | true, true => zlen (ci_bytes ci) | true, false => to_target evs | false, true => to_client evs | false, false => 0
+    end.
+  Fixpoint twire (fc first : bool) (k : string) (e : env) (st : astate) (cis : list conn_in) : Z :=
     match cis with
     | [] => 0
     | ci :: r =>
         match handle e st ci with
-        | (st', Ok evs) => (if String.eqb k (conn_key evs) then zlen (ci_bytes ci) else 0) + twire k e st' r
+        | (st', Ok evs) => (if String.eqb k (conn_key evs) then conn_wire fc first ci evs else 0) + twire fc first k e st' r
         | (_, Panic) => 0
         end
     end.
@@ -94,11 +105,46 @@ Section TcpMetrics.
   Lemma count_app p l1 l2 : count p (l1 ++ l2) = (count p l1 + count p l2)%nat.
   Proof. unfold count. rewrite filter_app, app_length. reflexivity. Qed.
 
+  Lemma zlen_nonneg {A} (l : list A) : 0 <= zlen l.
+  Proof. unfold zlen. lia. Qed.
+  Lemma pos_nonneg v : 0 <= v -> pos v = v.
+  Proof. intros H. unfold pos. destruct (0 <? v) eqn:E; [reflexivity|]. apply Z.ltb_ge in E. lia. Qed.
+
+  (* the Closed report's target-side counters are the bytes of the relay events *)
+  Lemma closed_counts e st ci st' evs s cp pt tp :
+    handle e st ci = (st', Ok evs) -> In (EClosed s cp pt tp) evs ->
+    pt = to_target evs /\ tp = to_client evs.
+  Proof.
+    unfold handle. destruct (authenticate e st (ci_ip ci) (ci_bytes ci)) as [st1 res].
+    destruct res as [[id el salt|sa id]|]; [| |intros H; inversion H].
+    - unfold after_auth. destruct (decode_stream e (e_key (snd el)) (ci_bytes ci)) as [p fin].
+      destruct (read_addr p) as [ab payload| |].
+      + destruct (decode_addr ab) as [a|].
+        * destruct (dial ci a) as [i|s0].
+          -- destruct fin; intros H Hin; inversion H; subst; clear H; cbn in Hin;
+               repeat (destruct Hin as [Hin|Hin]; [try discriminate; inversion Hin; subst|]); try contradiction;
+               cbn [to_target to_client fold_right app]; split; lia.
+          -- intros H Hin; inversion H; subst; clear H; cbn in Hin.
+             repeat (destruct Hin as [Hin|Hin]; [try discriminate; inversion Hin; subst|]); try contradiction. split; reflexivity.
+        * intros H Hin; inversion H; subst; clear H; cbn in Hin.
+          repeat (destruct Hin as [Hin|Hin]; [try discriminate; inversion Hin; subst|]); try contradiction. split; reflexivity.
+      + intros H Hin; inversion H; subst; clear H; cbn in Hin.
+        repeat (destruct Hin as [Hin|Hin]; [try discriminate; inversion Hin; subst|]); try contradiction. split; reflexivity.
+      + intros H Hin; inversion H; subst; clear H; cbn in Hin.
+        repeat (destruct Hin as [Hin|Hin]; [try discriminate; inversion Hin; subst|]); try contradiction. split; reflexivity.
+    - intros H Hin; inversion H; subst; clear H; cbn in Hin.
+      repeat (destruct Hin as [Hin|Hin]; [try discriminate; inversion Hin; subst|]); try contradiction. split; reflexivity.
+  Qed.
+  Lemma to_target_nonneg evs : 0 <= to_target evs.
+  Proof. induction evs as [|x r IH]; cbn [to_target fold_right]; [lia|]. fold (to_target r). destruct x; try exact IH. pose proof (zlen_nonneg bs). lia. Qed.
+  Lemma to_client_nonneg evs : 0 <= to_client evs.
+  Proof. induction evs as [|x r IH]; cbn [to_client fold_right]; [lia|]. fold (to_client r). destruct x; try exact IH. pose proof (zlen_nonneg bs). lia. Qed.
+
   (* one connection: its calls contribute one Closed entry, under the connection's key, with all
      the bytes its client sent; the keys recorded afterwards stay below the next id *)
-  Lemma conn_step e st ci st' evs c tk k :
+  Lemma conn_step e st ci st' evs c tk k fc first :
     handle e st ci = (st', Ok evs) -> below c tk ->
-    sum_closed k true true (tclosed tk (conn_calls c evs)) = (if String.eqb k (conn_key evs) then zlen (ci_bytes ci) else 0) /\
+    sum_closed k fc first (tclosed tk (conn_calls c evs)) = (if String.eqb k (conn_key evs) then conn_wire fc first ci evs else 0) /\
     below (c + 1) (tk_after tk (conn_calls c evs)).
   Proof.
     intros H Hb.
@@ -109,9 +155,15 @@ Section TcpMetrics.
     assert (Hcalls : flat_map (tcall_of c) evs = flat_map (tcall_of c) pre ++ [MTClosed c (sname s) cp pt tp 0]).
     { rewrite Hevs, flat_map_app. cbn. reflexivity. }
     rewrite Hcalls, tclosed_app, (pre_no_closed c tk pre Hpre). cbn [app tclosed].
-    rewrite sum_closed_cons. cbn [fst snd pick sum_closed fold_right].
-    assert (Hpos : pos cp = zlen (ci_bytes ci)).
-    { rewrite Hcp. unfold pos, zlen. destruct (0 <? Z.of_nat (List.length (ci_bytes ci))) eqn:E; [reflexivity|]. apply Z.ltb_ge in E. lia. }
+    rewrite sum_closed_cons. cbn [fst snd sum_closed fold_right].
+    assert (Hin : In (EClosed s cp pt tp) evs) by (rewrite Hevs; apply in_or_app; right; left; reflexivity).
+    destruct (closed_counts e st ci st' evs s cp pt tp H Hin) as [Hpt Htp].
+    assert (Hpos : pos (pick fc first (cp, pt, tp, 0)) = conn_wire fc first ci evs).
+    { unfold pick, conn_wire. destruct fc, first.
+      - rewrite Hcp. apply pos_nonneg, zlen_nonneg.
+      - rewrite Hpt. apply pos_nonneg, to_target_nonneg.
+      - rewrite Htp. apply pos_nonneg, to_client_nonneg.
+      - reflexivity. }
     destruct (count is_auth evs) as [|[|n]] eqn:Ca.
     - (* never authenticated *)
       assert (Hp0 : count is_auth pre = 0%nat) by (symmetry; exact Hap).
@@ -138,19 +190,16 @@ Section TcpMetrics.
     - lia.
   Qed.
 
-  Lemma trun_sum e cis : forall st c tk k, below c tk ->
-    sum_closed k true true (tclosed tk (trun e st c cis)) = twire k e st cis.
+  Lemma trun_sum e cis fc first : forall st c tk k, below c tk ->
+    sum_closed k fc first (tclosed tk (trun e st c cis)) = twire fc first k e st cis.
   Proof.
     induction cis as [|ci r IH]; intros st c tk k Hb; cbn [trun twire]; [reflexivity|].
     destruct (handle e st ci) as [st' [evs|]] eqn:H; [|reflexivity].
-    destruct (conn_step e st ci st' evs c tk k H Hb) as [Hs Hb'].
+    destruct (conn_step e st ci st' evs c tk k fc first H Hb) as [Hs Hb'].
     rewrite tclosed_app, sum_closed_app, Hs, (IH st' (c + 1)%N _ k Hb'). reflexivity.
   Qed.
 
-  Lemma gathered_tcp_c2p_equals_wire_lemma e st c cis k :
-    value (vals (crun (trun e st c cis))) (data "tcp" "c>p" k) = twire k e st cis.
-  Proof.
-    change "c>p"%string with (udir true true). rewrite gathered_tcp_bytes_lemma.
-    apply trun_sum. intros x [].
-  Qed.
+  Lemma gathered_tcp_equals_wire_lemma e st c cis k fc first :
+    value (vals (crun (trun e st c cis))) (data "tcp" (udir fc first) k) = twire fc first k e st cis.
+  Proof. rewrite gathered_tcp_bytes_lemma. apply trun_sum. intros x []. Qed.
 End TcpMetrics.
